@@ -66,10 +66,9 @@ Definition items_unsorted (inc lo nt : bool) (es : ents) : list (list string * t
 Definition items_view (inc lo so nt : bool) (es : ents) : list (list string * tree) :=
   let l := items_unsorted inc lo nt es in if so then sort_by (fun kv => sort_name (fst kv)) l else l.
 
-(* values: the flag-free sorted call takes element [1] of the unzipped sorted items: IndexError on an empty tensordict *)
+(* values: the values of the items (after the fix of D41 the flag-free sorted call no longer indexes an empty zip) *)
 Definition values_view (inc lo so nt : bool) (es : ents) : res (list tree) :=
-  if negb inc && negb lo && so && is_nilb es then Raise EOther
-  else Ok (map snd (items_view inc lo so nt es)).
+  Ok (map snd (items_view inc lo so nt es)).
 
 Definition len_view (inc lo so nt : bool) (es : ents) : nat := List.length (keys_view inc lo so nt es).
 
